@@ -265,6 +265,19 @@ func (Prop) Generate(r *fw.Rand, tier string) []fw.Case {
 	for i := 0; i < nsnap; i++ {
 		cases = append(cases, genSnapCase(r.Fork()))
 	}
+	// an error injected from a reader in mid-compaction (a key deleted from an input reader
+	// while the compaction is writing): fails cleanly or loses nothing
+	nrerr := 4
+	if tier == "thorough" {
+		nrerr = 40
+	}
+	for i := 0; i < nrerr; i++ {
+		nk := 2 + r.Intn(8)
+		cases = append(cases, fw.Case{Ops: []string{
+			fmt.Sprintf("reset %d", []int{3, 10, 1000}[r.Intn(3)]),
+			fmt.Sprintf("rerr %s %d %d %d", []string{"full", "fast"}[r.Intn(2)], nk, r.Intn(nk), r.Intn(1000)),
+		}, Tags: []string{"reader-error"}})
+	}
 	return cases
 }
 
@@ -449,6 +462,8 @@ func (rf *ref) step(f []string) string {
 			return "bad-op"
 		}
 		return "ok"
+	case "rerr":
+		return "rerr handled"
 	case "snap":
 		m := map[string]map[int64]string{}
 		for _, kb := range parseSpec(f[1]) {
@@ -490,6 +505,10 @@ func (Prop) Oracle(c fw.Case, out []string) fw.Verdict {
 				n = len(sig)
 			}
 			return fw.Verdict{OK: false, Why: fmt.Sprintf("%.200s: output shape: %.400s", op, why), Signature: "shape " + sigWords(why)}
+		case strings.HasPrefix(o, "READER-ERROR-"):
+			return fw.Verdict{OK: false, Why: fmt.Sprintf("%.200s => %.400s", op, o), Signature: "reader error during compaction: " + strings.Fields(o)[0]}
+		case o == "rerr not-injected":
+			return fw.Verdict{OK: false, Why: op + ": the harness could not inject the reader error", Signature: "harness: reader error not injected"}
 		case strings.HasPrefix(o, "ABORT-"):
 			return fw.Verdict{OK: false, Why: fmt.Sprintf("%.200s => %.400s", op, o), Signature: "abort " + strings.Fields(o)[0]}
 		case strings.HasPrefix(o, "err"):
